@@ -87,6 +87,8 @@ class Workspace:
         asm.gnu_ld([*old, "-o", self.prior_exe], check=True)
         asm.gnu_ld(["-shared", *old, "-o", self.prior_so], check=True)
         self._ref = {}
+        import threading
+        self._ref_lock = threading.Lock()
 
     def base_args(self, scn, out):
         a = [str(p) for p in self.new]
@@ -107,6 +109,10 @@ class Workspace:
     def reference(self, scn):
         """Bytes of a complete output for this scenario's arguments (fresh directory, no faults)."""
         k = (scn["shared"],)
+        with self._ref_lock:
+            return self._reference_locked(scn, k)
+
+    def _reference_locked(self, scn, k):
         if k not in self._ref:
             rd = self.d / f"ref{int(scn['shared'])}"
             rd.mkdir(exist_ok=True)
